@@ -9,7 +9,12 @@ Wraps the shared EngineHarness (nothing in engine_h / pcode_gen is changed):
 * the target of a request is chosen from the *current* run log (`engine.tracking.get_runlog()`, what the engine sends to
   the aggregator): pool "all" = k-th item, "pending" = k-th item that has no end state yet, "hidden" = k-th instruction
   instance that is awaiting its threshold (such instances are not rendered in the run log; used for the statement's
-  'forced threshold instruction' clause only, see c12.py).
+  'forced threshold instruction' clause only, see c12.py), "later" = k-th pending item of a line that has already been
+  executed before in this run (second call of a macro, second round of an Alarm body: an earlier instance of the same
+  runtime record has an end state);
+* per request the live `cancellable`/`forcible` property of the targeted node is recorded next to the run-log flag: it tells
+  a stale offer (flags are snapshots taken when the last state was recorded) from a refusal of a request that the node
+  itself would accept.
 
 The run is recorded as a list of observation points (one after every request slot, one after every tick) so that two
 runs of the same case can be compared point by point.
@@ -21,7 +26,7 @@ from vp.harness import pcode_gen as G
 CONCLUDED = ("completed", "failed", "cancelled")
 UOD_KINDS = ("quick", "slow", "ova", "ovb", "set", "flow", "valve")
 OPS = ("cancel", "force")
-POOLS = ("all", "pending", "hidden")
+POOLS = ("all", "pending", "hidden", "later")
 
 
 def group(kind: str | None) -> str:
@@ -121,6 +126,14 @@ def execute(case: dict, lines: list, mask: list | None = None, probe: bool = Fal
                                 "c": False, "f": False})
         return out
 
+    def earlier_ended(iid) -> bool:
+        """the line of this instance was executed before in this run: another instance of its record has an end state"""
+        r = e.tracking.get_record_by_instance_id(iid)
+        return r is not None and any(s.instance_id != iid and s.state_name in (RS.Completed, RS.Failed, RS.Cancelled) for s in r.states)
+
+    def later_candidates(rl):
+        return [d for d in rl if d["state"] not in CONCLUDED and earlier_ended(d["id"])]
+
     reqs = [list(r) for r in case["reqs"]]
     by_tick: dict = {}
     for i, r in enumerate(reqs):
@@ -143,6 +156,8 @@ def execute(case: dict, lines: list, mask: list | None = None, probe: bool = Fal
                     cands = rl
                 elif rec["pool"] == "pending":
                     cands = [d for d in rl if d["state"] not in CONCLUDED]
+                elif rec["pool"] == "later":
+                    cands = later_candidates(rl)
                 else:
                     cands = hidden_candidates()
                 if not cands:
@@ -160,7 +175,10 @@ def execute(case: dict, lines: list, mask: list | None = None, probe: bool = Fal
                     "status": "concluded" if d["state"] in CONCLUDED else "pending",
                     "state_before": h.state, "status_before": str(h.tagv("Method Status")),
                     "cmd_started": e.tracking.get_command(iid) is not None,
+                    "later_invocation": earlier_ended(iid),
                 })
+                node = e.tracking.get_known_node_by_id(trec.node_id) if trec is not None else None
+                rec["live"] = None if node is None else bool(node.cancellable if rec["op"] == "cancel" else node.forcible)
                 if mask is not None and not mask[i]:
                     rec["skip"] = "twin"
                     point("req%d" % i, rl)
@@ -174,6 +192,7 @@ def execute(case: dict, lines: list, mask: list | None = None, probe: bool = Fal
                 except Exception as ex:   # the handlers' rejection path: error reply to the aggregator
                     rec["accepted"] = False
                     rec["exc"] = type(ex).__name__
+                    rec["exc_msg"] = str(ex)[:160]
                 rec["applied"] = True
                 p = point("req%d" % i)
                 rec["state_after"], rec["paused_after"], rec["holding_after"] = p["state"], p["paused"], p["holding"]
@@ -183,7 +202,8 @@ def execute(case: dict, lines: list, mask: list | None = None, probe: bool = Fal
                 rl0 = runlog()
                 slot = {"all": [d["id"] for d in rl0] if isinstance(rl0, list) else [],
                         "pending": [d["id"] for d in rl0 if d["state"] not in CONCLUDED] if isinstance(rl0, list) else [],
-                        "hidden": [d["id"] for d in hidden_candidates()]}
+                        "hidden": [d["id"] for d in hidden_candidates()],
+                        "later": [d["id"] for d in later_candidates(rl0)] if isinstance(rl0, list) else []}
             vals = G.traj_at(case["traj"], t)
             if vals:
                 h.set_inputs(**vals)
